@@ -616,6 +616,51 @@ fn poll_probes(out: &mut dyn Write) -> Result<(), String> {
     if !tclosed { close(tw); }
     close(kr); close(tr); close(or_); close(ow);
   }
+  // a handled signal (no SA_RESTART) while the adapter waits with a time-out: the loop's model
+  // (Loop.v, answer Interrupted to a poll) needs to be told, so that IT recomputes the time left
+  // until the next repeat; an adapter that waits again by itself with the original time-out delays
+  // the repeat.  Up to three attempts: only an outcome that is wrong three times is reported.
+  {
+    extern "C" fn noop(_: libc::c_int) {}
+    let mut verdict = String::from("Interrupted");
+    for _attempt in 0..3 {
+      let (kr, kw) = pipe_cloexec()?;
+      let (tr, tw) = pipe_cloexec()?;
+      let (or_, ow) = pipe_cloexec()?;
+      set_nonblock(kr, true); set_nonblock(tr, true);
+      let mut old: libc::sigaction = unsafe { std::mem::zeroed() };
+      let mut sa: libc::sigaction = unsafe { std::mem::zeroed() };
+      sa.sa_sigaction = noop as usize;
+      sa.sa_flags = 0;
+      unsafe { libc::sigemptyset(&mut sa.sa_mask); libc::sigaction(libc::SIGUSR1, &sa, &mut old); }
+      let me = unsafe { libc::pthread_self() } as usize;
+      let (wait_ms, signal_ms): (u64, u64) = (1000, 400);
+      let sent_at = Arc::new(AtomicUsize::new(0));
+      let t0 = Instant::now();
+      let killer = { let sent_at = sent_at.clone(); std::thread::spawn(move || {
+        std::thread::sleep(Duration::from_millis(signal_ms));
+        unsafe { libc::pthread_kill(me as libc::pthread_t, libc::SIGUSR1); }
+        sent_at.store(t0.elapsed().as_millis() as usize, Ordering::SeqCst);
+      }) };
+      let r = catch_unwind(AssertUnwindSafe(|| real_driver_poll_once(kr, Some(tr), ow, Some(Duration::from_millis(wait_ms))))).unwrap_or_else(|_| Err("PANIC".to_string()));
+      let el = t0.elapsed().as_millis() as u64;
+      let _ = killer.join();
+      let sent = sent_at.load(Ordering::SeqCst) as u64;
+      unsafe { libc::sigaction(libc::SIGUSR1, &old, std::ptr::null_mut()); }
+      close(kw); close(tw); close(kr); close(tr); close(or_); close(ow);
+      // Interrupted = reported.  TimedOut at about wait_ms = the signal missed the wait (no information).
+      // TimedOut at about (signal time + wait_ms) or later = the adapter swallowed the interruption and waited again.
+      verdict = match &r {
+        Ok(VPollResult::Interrupted) => "Interrupted".to_string(),
+        Ok(VPollResult::TimedOut) if sent >= 100 && sent + 100 < wait_ms && el + 30 >= sent + wait_ms =>
+          format!("TimedOut-after-{}ms(time-out-{}ms,signal-at-{}ms:swallowed-and-waited-again)", el, wait_ms, sent),
+        Ok(VPollResult::TimedOut) => "Interrupted".to_string(),
+        _ => show(&r),
+      };
+      if verdict == "Interrupted" { break; }
+    }
+    writeln!(out, "POLLPROBE signal-while-waiting expected=Interrupted observed={}", verdict).map_err(|e| e.to_string())?;
+  }
   Ok(())
 }
 
